@@ -72,6 +72,20 @@ func checkCellPure(c CellCase) ([]byte, hist.Expect, error) {
 	if err := exp.Check(out); err != nil {
 		return nil, hist.Expect{}, fmt.Errorf("type %d meta %#x: %v", c.Col.Type, c.Col.LibMeta(), err)
 	}
+	// decoding is a function of the cell: the same cell decoded again gives the same text and length,
+	// and the first result is still what it was
+	first := append([]byte{}, out...)
+	var out2 []byte
+	var n2 int
+	err = guard(func() error {
+		var e error
+		out2, n2, e = replication.CellBytes(data, c.Pre, c.Col.Type, c.Col.LibMeta(), c.Unsigned)
+		return e
+	})
+	if err != nil || n2 != n || !bytes.Equal(out2, first) || !bytes.Equal(out, first) {
+		return nil, hist.Expect{}, fmt.Errorf("type %d meta %#x: decoding the same cell a second time gave %q (%d bytes consumed, err %v), the first time %q (%d); the first result now reads %q",
+			c.Col.Type, c.Col.LibMeta(), clipB(out2), n2, err, clipB(first), n, clipB(out))
+	}
 	return out, exp, nil
 }
 
